@@ -194,7 +194,7 @@ def shard(tier, seedv, k, n, col: Collector):
     def body(case):
         col.case()
         recipe = case["recipe"]
-        col.cls("gen:" + ("degenerate" if recipe.get("degenerate") else ("sub" if recipe.get("routines") else "core")))
+        col.cls("gen:" + ("degenerate" if recipe.get("degenerate") else ("constant-pool" if recipe.get("pool") else ("sub" if recipe.get("routines") else "core"))))
         if recipe.get("illtyped"):
             col.cls("ill-typed statement inserted:" + recipe["illtyped"])
         res = judge_recipe(case, col)
